@@ -429,7 +429,8 @@ def run_modules(spec, ctx):
         mp = V.ValueList()
         mp.addItem(V.ValueString(moddir))
         it.base_environment.put("checkerlang_module_path", mp)
-        name = "m%dx%d" % (ctx.shard, i)
+        # (names ending in letters of the file suffix, in digits, in an underscore; one of a single letter)
+        name = "m%dx%d%s" % (ctx.shard, i, ["", "util", "stack", "deck", "ckl", "_", "lc", "k", "Mock", "cell"][(i // 3) % 10])
         mode = r.choice(["random", "lf", "crlf", "comments"])
         variant = i % 3
         # (the module is named after its file, whatever name the requirer binds it to)
